@@ -1084,6 +1084,7 @@ func init() {
 		registerReplay("C10/fids", runFidCase)
 		registerReplay("C10/stale-completion", runStaleCase)
 		registerReplay("C10/pool", runPoolCase)
+		registerReplay("C10/socket-batches", runSockMuxCase)
 		registerReplay("C10/concurrent-close", runConcCloseCase)
 	})
 }
@@ -1248,6 +1249,28 @@ func TestC10(t *testing.T) {
 		h.Danger("fids", "client-panic", clientDied, c)
 		defer h.Safe()
 		return runFidCase(c)
+	})
+	// batches over a real socket, replies delivered in pieces
+	rapidCases(h, "socket-batches", env.PerShard(env.Pick(800, 40000)), func(rt *rapid.T) sockMuxCase {
+		c := sockMuxCase{After: rapid.IntRange(0, 2).Draw(rt, "after"), Joined: rapid.Bool().Draw(rt, "joined")}
+		total := 0
+		for i := rapid.IntRange(1, 5).Draw(rt, "n"); i > 0; i-- {
+			n := rapid.SampledFrom([]int{0, 1, 5, 100, 1000, 4096, 20000}).Draw(rt, "size")
+			c.Sizes = append(c.Sizes, n)
+			total += n + 160
+		}
+		c.Order = rapid.Permutation([]int{0, 1, 2, 3, 4}).Draw(rt, "order")
+		for k := rapid.IntRange(1, 6).Draw(rt, "ncuts"); k > 0; k-- {
+			c.Cuts = append(c.Cuts, rapid.IntRange(1, total).Draw(rt, "cut"))
+		}
+		sortInts(c.Cuts)
+		return c
+	}, func(c sockMuxCase) *fail {
+		h.Case(evid.HashJSON(c), len(c.Sizes) >= 2, "socket-batches")
+		if len(c.Sizes) >= 2 && h.WantSample("socket-batches") {
+			h.Sample("socket-batches", c)
+		}
+		return runSockMuxCase(c)
 	})
 	// one File released by several goroutines at once, then new Files bound
 	rapidCases(h, "concurrent-close", env.PerShard(env.Pick(640, 32000)), func(rt *rapid.T) concCloseCase {
